@@ -380,6 +380,81 @@ JudgeConcat(Rs, O) ==
                      V(IF sig[3] = <<>> THEN "site" ELSE "den", sig[1])) : sig \in sigs}
 
 (***************************************************************************)
+(* Repair (C12): safety clauses on the abstract features.                  *)
+(* class = (key, qualifiers).  Mergeable(a,b): same class, the 3' outer    *)
+(* end of a is partial, the 5' outer start of b is partial and the two     *)
+(* ends abut (any abutting ends for source features).                      *)
+(***************************************************************************)
+ClassOf(f) == <<f.key, f.props>>
+PosOf(R, id) == CHOOSE q \in 1..Len(R.ids) : R.ids[q] = id
+Abuts(R, a, b) ==   \* the 3' end of a meets the 5' start of b
+  /\ FDen(a) # <<>> /\ FDen(b) # <<>>
+  /\ LET x == FDen(a)[Len(FDen(a))]  y == FDen(b)[1]
+     IN x[2] = y[2] /\ PosOf(R, y[1]) = PosOf(R, x[1]) + x[2]
+Mergeable(R, a, b) ==
+  /\ ClassOf(a) = ClassOf(b)
+  /\ Abuts(R, a, b)
+  /\ (a.key = "source" \/ (a.f3 /\ b.f5))
+
+JudgeRepair(S, O) ==
+  LET n == Len(S.feats)
+      m == Len(O.feats)
+      classes == {ClassOf(S.feats[j]) : j \in 1..n}
+      cov(R, c) == UNION {FSet(R.feats[j]) : j \in {q \in 1..Len(R.feats) : ClassOf(R.feats[q]) = c}}
+      anyMergeable == \E i \in 1..n, j \in 1..n : i # j /\ Mergeable(S, S.feats[i], S.feats[j])
+      \* which inputs went into output o: same class and denotation contained
+      srcsOf(o) == {j \in 1..n : ClassOf(S.feats[j]) = ClassOf(o) /\ FSet(S.feats[j]) \subseteq FSet(o) /\ FDen(S.feats[j]) # <<>>}
+      \* the inputs of a merged output form a chain of mergeable pairs
+      RECURSIVE Chain(_, _)
+      Chain(last, rest) ==
+        IF rest = {} THEN TRUE
+        ELSE \E j \in rest : Mergeable(S, S.feats[last], S.feats[j]) /\ Chain(j, rest \ {j})
+      chained(J) == J = {} \/ \E j \in J : Chain(j, J \ {j})
+      outRule(o) ==
+        IF FDen(o) = <<>> THEN {}
+        ELSE LET J == srcsOf(o)
+                 same == \E j \in J : FDen(S.feats[j]) = FDen(o)
+             IN IF same THEN {}
+                ELSE If(~\E K \in SUBSET J : K # {} /\ UNION {FSet(S.feats[j]) : j \in K} = FSet(o) /\ chained(K),
+                        V("repair-merged-unrelated", o.label))
+  IN ResRule(O, S.ids, S.byt)
+     \cup AllWFx(O, Ill(S))
+     \cup UNION {If(cov(O, c) # cov(S, c), V("repair-cover", c[1])) : c \in classes}
+     \cup If(\E j \in 1..m : ClassOf(O.feats[j]) \notin classes, V("repair-class", "-"))
+     \cup If(~anyMergeable /\ O.raw.feats # S.raw.feats, V("repair-changed", "-"))
+     \cup UNION {outRule(O.feats[j]) : j \in 1..m}
+
+\* B's table restores A's: every feature of A whose location consists of
+\* points and ranges only (possibly joined / complemented; zero-length sites,
+\* ambiguous spans and orders carry no partial markers to re-assemble by) is
+\* in B exactly once with the same location (source features: the same up to
+\* partial markers, which slicing strips)
+RECURSIVE Restorable(_)
+Restorable(t) ==
+  CASE t.k \in {"pt", "rg"} -> TRUE
+    [] t.k = "jn" -> \A j \in 1..Len(t.xs) : Restorable(t.xs[j])
+    [] t.k = "cp" -> Restorable(t.x)
+    [] OTHER -> FALSE
+\* C is the record the repair was applied to (the concatenated pieces): the
+\* restoration is claimed for a feature when its pieces form one chain of
+\* mergeable pairs (a cut that falls between two parts of a join leaves
+\* complete, non-abutting pieces, which Repair must NOT merge)
+LawSameTable(A, B, C) ==
+  LET RECURSIVE Chain(_, _, _)
+      Chain(ps, last, rest) ==
+        IF rest = {} THEN TRUE
+        ELSE \E j \in rest : Mergeable(C, ps[last], ps[j]) /\ Chain(ps, j, rest \ {j})
+      claimed(lab) == LET ps == FeatsWith(C, lab) IN
+                      Len(ps) >= 1 /\ \E j \in 1..Len(ps) : Chain(ps, j, (1..Len(ps)) \ {j})
+  IN If(A.ids # B.ids \/ A.byt # B.byt, V("law-res", "-"))
+     \cup UNION {LET f == A.feats[j]  os == FeatsWith(B, f.label) IN
+              IF ~Restorable(f.loc) \/ ~claimed(f.label) \/ (f.key = "source" /\ f.loc.k # "rg") THEN {}
+              ELSE IF Len(os) # 1 THEN V("law-once", f.label)
+              ELSE IF f.key = "source" THEN If(AsComplete(os[1].loc) # AsComplete(f.loc), V("law-loc", f.label))
+              ELSE If(os[1].loc # f.loc \/ os[1].props # f.props \/ os[1].key # f.key, V("law-loc", f.label))
+             : j \in 1..Len(A.feats)}
+
+(***************************************************************************)
 (* Laws relating records of one workspace (C04, C05, C10)                  *)
 (***************************************************************************)
 \* B restores A: same residues, and every feature of A is in B once with
